@@ -188,6 +188,7 @@ fn run(input: &Value) -> CaseOut {
         let mut gaps_json = Vec::new();
         let mut gaps_coq = Vec::new();
         let mut result_ok = false;
+        let base: u64 = POINTS.iter().map(|p| hooks::arrivals(p)).sum();
         std::thread::scope(|scope| {
             let (config, engine, history, mut notify) = (&env.config, &env.engine, &env.history, env.notify.clone());
             let spec = c["data"].clone();
@@ -199,18 +200,21 @@ fn run(input: &Value) -> CaseOut {
                 fin.store(true, Ordering::SeqCst);
                 res.is_ok()
             });
+            let mut handled = 0u64;
             loop {
-                match hooks::wait_any(&POINTS, Duration::from_millis(20)) {
+                // a stop is new only if the number of arrivals has grown (the thread may not yet have left the point we released)
+                let total: u64 = POINTS.iter().map(|p| hooks::arrivals(p)).sum::<u64>() - base;
+                let stop = if total > handled { hooks::wait_any(&POINTS, Duration::from_millis(20)) } else { None };
+                match stop {
                     Some(l) => {
+                        handled += 1;
                         if l == "server.updated" { hooks::set_now(Some(ts(t_done))); }
                         let (j, q) = probe_all(&env, &r, &mut seen);
                         gaps_json.push(json!({"at": l, "obs": j}));
                         gaps_coq.push(format!("({}, [{}])", label_code(&l), q.join("; ")));
                         hooks::release(&l);
-                        // wait until the thread has left the point
-                        while hooks::wait_any(&[&l], Duration::from_millis(0)).is_some() && !finished.load(Ordering::SeqCst) { std::thread::yield_now(); }
                     }
-                    None => if finished.load(Ordering::SeqCst) { break },
+                    None => if finished.load(Ordering::SeqCst) { break } else { std::thread::sleep(Duration::from_micros(200)) },
                 }
                 if gaps_json.len() > 40 { break }
             }
@@ -293,6 +297,7 @@ fn run_reader(input: &Value) -> CaseOut {
     let mut injected = false;
     let mut out: Option<(String, String, Value)> = None;
     let extra = input["extra"].clone();
+    let base = hooks::arrivals("history.read");
     std::thread::scope(|scope| {
         let envr = &env;
         let rr = &r;
@@ -348,7 +353,7 @@ fn run_reader(input: &Value) -> CaseOut {
         });
         loop {
             if reader.is_finished() { break }
-            if hooks::wait_any(&["history.read"], Duration::from_millis(10)).is_some() {
+            if hooks::arrivals("history.read") - base > arrivals && hooks::wait_any(&["history.read"], Duration::from_millis(10)).is_some() {
                 arrivals += 1;
                 if arrivals == 2 && !injected {
                     // the operation comes back for a second lock acquisition: a whole validation cycle happens in between
@@ -360,8 +365,7 @@ fn run_reader(input: &Value) -> CaseOut {
                     Server::verif_process_once(&envr.config, &envr.engine, &envr.history, &mut notify, &ex, false).unwrap();
                 }
                 hooks::release("history.read");
-                while hooks::wait_any(&["history.read"], Duration::from_millis(0)).is_some() && !reader.is_finished() { std::thread::yield_now(); }
-            }
+            } else { std::thread::sleep(Duration::from_micros(200)); }
             if arrivals > 20 { break }
         }
         hooks::disarm("history.read");
